@@ -11,7 +11,7 @@ CONSTANTS
   GenBlockTypes = {"b", "c", "t"}
   GenNoteKinds = {"N", "I", "M"}
   GenSubTypes = {"B", "C", "S", "T", "W"}
-  Terse = FALSE
-  Rich = FALSE
+  Terse = 0
+  Rich = 1
   Phased = TRUE
 CHECK_DEADLOCK FALSE
